@@ -200,7 +200,8 @@ func verifStartH2CBackend(cases map[string]*verifC03Resp) (addr string, stop fun
 			if off < len(body) {
 				w.Write(body[off:])
 			}
-			if sc.Framing != "length" {
+			{
+				// (HTTP/2 allows trailers next to a Content-Length)
 				for _, t := range sc.Declared {
 					w.Header().Add(t[0], t[1])
 				}
@@ -270,7 +271,7 @@ func TestVerifC03(t *testing.T) {
 		default:
 			c.Chunks = []int{c.BodyLen}
 		}
-		if c.Framing == "chunked" {
+		if c.Framing == "chunked" || (proto == "h2c" && c.Framing == "length" && i%2 == 0) {
 			nd := []int{0, 0, 1, 1, 2, 3, 5}[rng.intn(7)]
 			for k := 0; k < nd; k++ {
 				c.Declared = append(c.Declared, [2]string{trailerNames[k], fmt.Sprintf("d%d-%d", i, k)})
